@@ -79,12 +79,12 @@ theorem instOps_filter_touches (i : Nat) (σ : List (Event S)) :
     | inst i' o =>
       by_cases hi : i' = i
       · subst hi
-        simp [List.filter_cons, Event.touches, Event.instOf, instOps_cons_inst, ih]
-      · simp [List.filter_cons, Event.touches, Event.instOf, instOps_cons_inst, ih, hi]
+        simp [Event.touches, Event.instOf, instOps_cons_inst, ih]
+      · simp [Event.touches, Event.instOf, instOps_cons_inst, ih, hi]
     | migrate i' to =>
-      by_cases hi : i' = i <;> simp [List.filter_cons, Event.touches, Event.instOf, instOps, ih, hi]
-    | takeLastError => simp [List.filter_cons, Event.touches, Event.instOf, instOps, ih]
-    | parseSelector s => simp [List.filter_cons, Event.touches, Event.instOf, instOps, ih]
+      by_cases hi : i' = i <;> simp [Event.touches, Event.instOf, instOps, ih, hi]
+    | takeLastError => simp [Event.touches, Event.instOf, instOps, ih]
+    | parseSelector s => simp [Event.touches, Event.instOf, instOps, ih]
 
 /-! ## Unwinding -/
 
